@@ -63,8 +63,26 @@ pub struct WorldExec {
     /// depend on the (unspecified) order in which the assets of that pass were reloaded — see known finding F-C05d —
     /// and engines that compare values with the model stop the case here
     pub unspecified: bool,
+    /// why (`new-asset-loaded-during-a-pass`, `rewired-onto-an-asset-changed-in-the-same-pass`)
+    pub unspecified_why: &'static str,
+    /// script files as they were at the end of the last pass (recorded at their first edit since then): the
+    /// asset references a reloaded script asset had BEFORE this pass (known finding F-C05e)
+    scripts_before: BTreeMap<String, Option<Vec<u8>>>,
     /// kernel tid of the reloader thread (liveness through `/proc/self/task`), when it could be determined
     hr_os_tid: Option<u64>,
+}
+
+/// the assets a script refers to: tokens `+T:id =T:id ?T:id !T:id ~T:id &T:id ^T:id`
+pub fn script_refs(text: Option<&[u8]>) -> std::collections::BTreeSet<(String, String)> {
+    let mut out = std::collections::BTreeSet::new();
+    let Some(t) = text.and_then(|b| std::str::from_utf8(b).ok()) else { return out };
+    for tok in t.split_whitespace() {
+        let mut ch = tok.chars();
+        let Some(c) = ch.next() else { continue };
+        if !"+=?!~&^".contains(c) { continue; }
+        if let Some((ty, id)) = ch.as_str().split_once(':') { out.insert((ty.to_string(), id.to_string())); }
+    }
+    out
 }
 
 pub const ALL_TYPES: &[&str] = &["S0", "S1", "S2", "N0", "AN", "AS", "I", "M00", "M01", "M10", "M11", "M20", "M21", "M30", "M31", "M40", "M41", "M50", "M51",
@@ -121,7 +139,7 @@ impl WorldExec {
                 if hr_os_tid.is_none() { std::thread::yield_now(); }
             }
         }
-        WorldExec { src, fe, via_any, has_reloader, handles: BTreeMap::new(), next_h: 0, watchers: BTreeMap::new(), hr_thread, hr_os_tid, leak: false, wait_secs: 20, static_mode: false, unspecified: false, universe_ids: crate::eng_cache::IDS.iter().map(|s| s.to_string()).chain(["".to_string(), "d".to_string(), "d.e".to_string()]).collect() }
+        WorldExec { src, fe, via_any, has_reloader, handles: BTreeMap::new(), next_h: 0, watchers: BTreeMap::new(), hr_thread, hr_os_tid, leak: false, wait_secs: 20, static_mode: false, unspecified: false, unspecified_why: "", scripts_before: BTreeMap::new(), universe_ids: crate::eng_cache::IDS.iter().map(|s| s.to_string()).chain(["".to_string(), "d".to_string(), "d.e".to_string()]).collect() }
     }
 
     /// Quiescence barrier without sleeping: nothing is pending in either channel and the reloader
@@ -207,6 +225,10 @@ impl WorldExec {
         m
     }
 
+    fn script_bytes(&self, id: &str) -> Option<Vec<u8>> {
+        match self.src.lock().files.get(&(id.to_string(), "s".to_string())) { Some(FileSt::Bytes(b, _)) => Some(b.to_vec()), _ => None }
+    }
+
     /// Adds an id (and every directory prefix of it: recursive directory loads cache those) to the universe.
     pub fn note_id(&mut self, id: &str) {
         let mut cur = Some(id);
@@ -222,10 +244,24 @@ impl WorldExec {
         if w.is_empty() { return "bad-op".into(); }
         let is_pass = self.has_reloader && (w[0] == "reload" || w[0] == "enhance" || (w[0] == "notify" && self.static_mode));
         if is_pass {
-            let before: Vec<(String, String)> = self.snapshot().into_keys().collect();
+            let before = self.snapshot();
             let out = self.op_inner(line);
-            if self.snapshot().keys().any(|k| !before.contains(k)) { self.unspecified = true; }
+            let after = self.snapshot();
+            if after.keys().any(|k| !before.contains_key(k)) { self.unspecified = true; self.unspecified_why = "new-asset-loaded-during-a-pass"; }
+            // F-C05e: a script asset reloaded in this pass starts to refer to another asset reloaded in this pass
+            let reloaded: Vec<(String, String)> = after.iter().filter(|(k, v)| before.get(*k).map(|b| b.1 != v.1).unwrap_or(false)).map(|(k, _)| k.clone()).collect();
+            for k in &reloaded {
+                if !(k.0.starts_with('S') || k.0.starts_with('N') || k.0.starts_with('A')) { continue; }
+                let now = script_refs(self.script_bytes(&k.1).as_deref());
+                let old = match self.scripts_before.get(&k.1) { Some(b) => script_refs(b.as_deref()), None => now.clone() };
+                if now.difference(&old).any(|d| d != k && reloaded.contains(d)) && !self.unspecified { self.unspecified = true; self.unspecified_why = "rewired-onto-an-asset-changed-in-the-same-pass"; }
+            }
+            self.scripts_before.clear();
             return out;
+        }
+        if w[0].starts_with("src.") && w.len() >= 3 && unhexs(w[2]) == "s" {
+            let id = unhexs(w[1]);
+            if !self.scripts_before.contains_key(&id) { let cur = self.script_bytes(&id); self.scripts_before.insert(id, cur); }
         }
         self.op_inner(line)
     }
